@@ -1297,6 +1297,9 @@ def rule_schema_text(m):
                     if t[0] == 'bin' and t[1] == '==' and strip_cast(t[3]) == ('int', 0) and t[2][0] == 'mcall' and \
                             t[2][1].endswith('::count') and t[2][3] == (s,):
                         okg = True
+                    if t[0] == 'bin' and t[1] == '==' and t[2][0] == 'mcall' and t[2][1].endswith('::find') and t[2][3] == (s,) and \
+                            t[3][0] == 'mcall' and t[3][1].endswith('::end') and t[3][2] == t[2][2]:
+                        okg = True      # labels.find(s) == labels.end()
                     if t[0] == 'bin' and t[1] == '==':
                         for it, other in ((t[2], t[3]), (t[3], t[2])):
                             if other[0] == 'mcall' and other[1].endswith('::end') and it[0] == 'var':
